@@ -18,7 +18,7 @@
     Never imported by [Model/]. *)
 From Coq Require Import List Ascii String ZArith NArith Bool Lia Arith.
 From Shexer Require Import Lib.PyStr Lib.Dict Gen.Consts Spec.Rdf Model.Tracker Model.Profiler
-     Model.Freq Model.Shexing Model.Run Model.Channels Spec.ChannelSpec Proofs.ChannelProofs Proofs.ChannelReaders.
+     Model.Freq Model.Shexing Model.Run Model.RunCur Model.Channels Spec.ChannelSpec Proofs.ChannelProofs Proofs.ChannelReaders.
 From Shexer Require Model.NtReader Spec.NtSyntax Spec.NtDom Spec.NtDomCur Proofs.NtProofs Proofs.NtProofsFx Proofs.NtTotal.
 Import ListNotations.
 
@@ -206,7 +206,7 @@ Section NtCur.
   Theorem nt_text_to_graph_cur c thr (o1 o2 : porc) ts :
     Forall nt_ok_case_cur ts ->
     run_over_passes fa c thr (passes1 o1 o2 NT None (SRaw (NtSyntax.nt_doc ts)))
-    = Some (run_shapes fa c thr (nt_graph ts)).
+    = Some (run_shapes_cur fa c thr (nt_graph ts)).
   Proof.
     intros H.
     destruct (nt_raw_stream_cur pyfloat read_ttl gunzip unxz unzip rdf_parse allow o1 ts H) as (ms & G & H1 & HG & HE).
@@ -214,7 +214,7 @@ Section NtCur.
     assert (ms2 = ms) as ->.
     { rewrite !nt_chan_raw_cur in *. rewrite H1 in H2. injection H2 as ->. reflexivity. }
     unfold run_over_passes, graphs_of_passes, passes. cbn [fst snd]. rewrite H1, H2, HG.
-    rewrite run_shapes2_same. f_equal. rewrite <- HE. symmetry. apply run_shapes_erase_lex.
+    rewrite run_shapes2_same. f_equal. rewrite <- HE. symmetry. apply run_shapes_cur_erase_lex.
   Qed.
 
   Lemma nt_raw_lines_same_cur o o' ts :
@@ -233,20 +233,20 @@ Section NtCur.
     (forall cm lss stored,
         List.concat lss = nt_lines ts -> cm_plain cm ->
         Forall2 (stored_as gunzip unxz cm) (map render_lines lss) stored ->
-        run_over_passes fa c thr (passes1 o1 o2 NT cm (SFiles stored)) = Some (run_shapes fa c thr (nt_graph ts))) /\
+        run_over_passes fa c thr (passes1 o1 o2 NT cm (SFiles stored)) = Some (run_shapes_cur fa c thr (nt_graph ts))) /\
     (forall cm st,
         cm_plain cm -> stored_as gunzip unxz cm (render_lines (nt_lines ts)) st ->
-        run_over_passes fa c thr (passes1 o1 o2 NT cm (SFile st)) = Some (run_shapes fa c thr (nt_graph ts))) /\
+        run_over_passes fa c thr (passes1 o1 o2 NT cm (SFile st)) = Some (run_shapes_cur fa c thr (nt_graph ts))) /\
     (forall archive lss,
         List.concat lss = nt_lines ts -> archive_holds unzip archive lss ->
-        run_over_passes fa c thr (passes1 o1 o2 NT (Some c_ZIP) (SFile archive)) = Some (run_shapes fa c thr (nt_graph ts))) /\
+        run_over_passes fa c thr (passes1 o1 o2 NT (Some c_ZIP) (SFile archive)) = Some (run_shapes_cur fa c thr (nt_graph ts))) /\
     (forall archives lsss,
         List.concat (List.concat lsss) = nt_lines ts -> Forall2 (archive_holds unzip) archives lsss ->
-        run_over_passes fa c thr (passes1 o1 o2 NT (Some c_ZIP) (SFiles archives)) = Some (run_shapes fa c thr (nt_graph ts))).
+        run_over_passes fa c thr (passes1 o1 o2 NT (Some c_ZIP) (SFiles archives)) = Some (run_shapes_cur fa c thr (nt_graph ts))).
   Proof.
     intros H Hok.
     assert (Hraw : run_over_passes fa c thr (passes1 o1 o2 NT None (SRaw (render_lines (nt_lines ts))))
-                   = Some (run_shapes fa c thr (nt_graph ts))).
+                   = Some (run_shapes_cur fa c thr (nt_graph ts))).
     { rewrite <- (nt_text_to_graph_cur c thr o1 o2 ts H). unfold passes.
       rewrite (nt_raw_lines_same_cur o1 o1 ts H Hok), (nt_raw_lines_same_cur o2 o2 ts H Hok). reflexivity. }
     destruct (partition_invisible_nt_cur o1 o1) as (A1 & B1 & C1 & D1).
@@ -270,7 +270,7 @@ Section NtCur.
     nt_fixed_tok = true -> nt_fixed_dlt = true -> nt_tok_end_at_hash = true ->
     Forall nt_valid_case ts ->
     run_over_passes fa c thr (passes1 o1 o2 NT None (SRaw (NtSyntax.nt_doc ts)))
-    = Some (run_shapes fa c thr (nt_graph ts)).
+    = Some (run_shapes_cur fa c thr (nt_graph ts)).
   Proof. intros E1 E2 E3 H. apply nt_text_to_graph_cur, valid_case_ok_cur; assumption. Qed.
 
   (** *** ... and no text at all makes the N-Triples channel end in the hang outcome *)
